@@ -320,3 +320,121 @@ theorem finish_ok (fuel : Nat) (s : St) (hok : St.Ok P s) (hlen : s.frames.lengt
       simpa [hf] using this
 
 end Hl7.Msg
+
+namespace Hl7.Msg
+open Hl7 Hl7.G
+
+/-- the structure levels a line can still be placed in: the open groups, innermost first, then the message level -/
+def St.pathRows (s : St) : List (List SRow) := s.frames.map (·.rows) ++ [s.topRows]
+
+theorem pathRows_closeTop (s : St) (f : Frame) (fs : List Frame) (hf : s.frames = f :: fs) :
+    s.pathRows = f.rows :: (closeTop s).pathRows := by
+  unfold St.pathRows closeTop
+  simp only [hf]
+  cases fs with
+  | nil => simp
+  | cons g gs => simp
+
+theorem ne_append_singleton {α} (l : List α) (x : α) : l ++ [x] ≠ l := by
+  intro h
+  have := congrArg List.length h
+  simp at this
+
+/-- **a line is dropped only when no open level can place it.**  If `place` leaves the segments built so far unchanged although
+    the line's segment parses, then the line's name is found neither in the innermost open group, nor in any group around it,
+    nor at the message level (finding D4 is exactly this case: the text is accepted and the line silently left out). -/
+theorem place_dropped_unplaceable (T : Tables) (strict : Bool) (name : String) (mk : Unit → R Pe.Seg) (fuel : Nat) :
+    ∀ (s s' : St), s.frames.length < fuel → place T strict name mk fuel s = .ok s' → s'.flatAll = s.flatAll →
+      ∀ rows ∈ s.pathRows, findInRows name rows = none := by
+  induction fuel with
+  | zero => intro s s' hl; exact absurd hl (Nat.not_lt_zero _)
+  | succ fuel ih =>
+    intro s s' hl h hsame
+    unfold place at h
+    split at h
+    · next hnone =>
+      split at h
+      · next hfr =>
+        intro rows hr
+        have : s.curRows = s.topRows := by unfold St.curRows; simp [hfr]
+        simp only [St.pathRows, hfr, List.map_nil, List.nil_append, List.mem_singleton] at hr
+        subst hr; rw [← this]; exact hnone
+      · next f fs hfr =>
+        have hlen : (closeTop s).frames.length < fuel := by
+          unfold closeTop
+          simp only [hfr]
+          cases fs with
+          | nil => rw [hfr] at hl; simp at hl ⊢; omega
+          | cons g gs => rw [hfr] at hl; simp at hl ⊢; omega
+        have hrec := ih (closeTop s) s' hlen h (by rw [hsame, flatAll_closeTop])
+        intro rows hr
+        rw [pathRows_closeTop s f fs hfr] at hr
+        rcases List.mem_cons.mp hr with e | e
+        · subst e
+          have : s.curRows = f.rows := by unfold St.curRows; simp [hfr]
+          rw [← this]; exact hnone
+        · exact hrec rows e
+    · -- placed directly: the flat list grew, contradiction
+      exfalso
+      have hgrow : ∃ sg, s'.flatAll = s.flatAll ++ [sg] := by
+        have := place_flat T strict name mk (fuel + 1) s s' (by
+          unfold place
+          rename_i hsome
+          simp only [hsome]
+          exact h)
+        rcases this with hs | ⟨sg, _, hg⟩
+        · -- `place_flat` allows "unchanged" in general; here the direct branch always adds
+          exact absurd hs (by
+            intro _
+            -- re-derive from the branch structure
+            split at h
+            · split at h
+              · next f fs hfr hrep =>
+                simp only [bind, Except.bind] at h
+                cases ho : openFrame T strict (closeTop s) f.name f.rows with
+                | error e => simp [ho] at h
+                | ok s2 =>
+                  simp only [ho] at h
+                  cases hm : mk () with
+                  | error e => simp [hm] at h
+                  | ok sg =>
+                    simp only [hm] at h
+                    have := flatAll_addNode T strict s2 s' sg h
+                    rw [flatAll_openFrame T strict _ s2 _ _ ho, flatAll_closeTop, hsame] at this
+                    exact ne_append_singleton _ _ this.symm
+              · simp only [bind, Except.bind] at h
+                cases hm : mk () with
+                | error e => simp [hm] at h
+                | ok sg =>
+                  simp only [hm] at h
+                  have := flatAll_addNode T strict s s' sg h
+                  rw [hsame] at this
+                  exact ne_append_singleton _ _ this.symm
+            · simp only [bind, Except.bind] at h
+              cases hm : mk () with
+              | error e => simp [hm] at h
+              | ok sg =>
+                simp only [hm] at h
+                have := flatAll_addNode T strict s s' sg h
+                rw [hsame] at this
+                exact ne_append_singleton _ _ this.symm)
+        · exact ⟨sg, hg⟩
+      obtain ⟨sg, hg⟩ := hgrow
+      rw [hsame] at hg
+      exact ne_append_singleton _ _ hg.symm
+    · next p hne hp =>
+      exfalso
+      simp only [bind, Except.bind] at h
+      cases ho : openPath T strict s p with
+      | error e => simp [ho] at h
+      | ok s1 =>
+        simp only [ho] at h
+        cases hm : mk () with
+        | error e => simp [hm] at h
+        | ok sg =>
+          simp only [hm] at h
+          have := flatAll_addNode T strict s1 s' sg h
+          rw [flatAll_openPath T strict p s s1 ho, hsame] at this
+          exact ne_append_singleton _ _ this.symm
+
+end Hl7.Msg
